@@ -137,6 +137,28 @@ fn run(mode: Mode, src: &mut Src, ctx: &mut Ctx) -> Verdict {
         }
         log.push(format!("start {}", t.show()));
     }
+    if ctx.knobs.variant == 2 {
+        // plan hist-parsed: the forest also holds trees made by the PARSER from generated, lexically
+        // rich renderings (CDATA runs, references, CR / CRLF line ends): "trees obtained by parsing"
+        let n = 1 + src.choice(2);
+        for _ in 0..n {
+            let fragment = src.bool();
+            let kn = Knobs { max_nodes: 8, ..Default::default() };
+            if let Ok(case) = crate::props::c02::make_case(src, &kn, fragment, false, true) {
+                let text = case.rendered.text.clone();
+                let r = guarded(|| if fragment { xot.parse_fragment(&text) } else { xot.parse(&text) });
+                if let Ok(Ok(d)) = r {
+                    let all: Vec<Node> = xot.all_descendants(d).take(10_000).collect();
+                    for x in all {
+                        known.add(x);
+                    }
+                    known.add(d);
+                    log.push(format!("start parse({:?})", text));
+                    ctx.label("parsed_start_tree");
+                }
+            }
+        }
+    }
     let mut never_off = !start.iter().any(has_adjacent_text);
     // ids parsed with xml:id: (document, id)
     let mut xml_ids: Vec<(Node, String)> = vec![];
@@ -149,6 +171,16 @@ fn run(mode: Mode, src: &mut Src, ctx: &mut Ctx) -> Verdict {
         Err(e) => return Verdict::Fail(format!("start forest already invalid: {}", e)),
     };
     if let Err(e) = bridge::check_structure(&xot, &obs.snap, never_off) {
+        if ctx.knobs.variant == 2 {
+            // the only part of this start forest xot built on its own is what the parser returned
+            if mode == Mode::Refusal {
+                // not C06's business (C03 / C04 own it): nothing to say about this case
+                ctx.label("parsed_start_tree_invalid");
+                return Verdict::Pass;
+            }
+            ctx.rendering(|| log.join("; "));
+            return Verdict::Fail(format!("a tree returned by the parser violates the structural invariants: {}", e));
+        }
         return Verdict::Fail(format!("harness: start forest violates invariants: {}", e));
     }
     for (n, sn) in &obs.snap.nodes {
@@ -482,6 +514,19 @@ fn plans(tier: Tier, quick_cases: usize, thorough_cases: usize) -> Vec<Plan> {
                     ..Default::default()
                 },
             },
+            Plan {
+                name: "hist-parsed",
+                kind: PlanKind::Random {
+                    cases: quick_cases / 3,
+                    max_len: 600,
+                },
+                knobs: Knobs {
+                    max_nodes: 10,
+                    max_ops: 20,
+                    variant: 2,
+                    ..Default::default()
+                },
+            },
         ],
         Tier::Thorough => vec![
             Plan {
@@ -548,6 +593,19 @@ fn plans(tier: Tier, quick_cases: usize, thorough_cases: usize) -> Vec<Plan> {
                     max_nodes: 10,
                     max_ops: 30,
                     variant: 1,
+                    ..Default::default()
+                },
+            },
+            Plan {
+                name: "hist-parsed",
+                kind: PlanKind::Random {
+                    cases: thorough_cases / 3,
+                    max_len: 600,
+                },
+                knobs: Knobs {
+                    max_nodes: 10,
+                    max_ops: 20,
+                    variant: 2,
                     ..Default::default()
                 },
             },
